@@ -359,6 +359,9 @@ def check_broadcast(target, opname, opargs, result, exc, op):
         return
     plate = sl.plate
     M.count('WELLWISE.' + opname)
+    if 'Recipe.bake' in M.opstack:
+        M.count('WELLWISE.recipe_step')
+        M.bucket('C07/recipe/' + opname)
     exp = {}
     fold_exc = None
     with M.oracle():
